@@ -68,6 +68,17 @@ package api
 //	                                    EARLIER call of the same member (timed-out
 //	                                    Unlock / clean-up of a failed Lock) had sent
 //	                                    and given up on   [FINDING on the unchanged tree]
+//	  C18.two-holders-delete-issued-outside-unlock   the DeleteRange that removed the key
+//	                                    under the holder was issued while no Lock/Unlock
+//	                                    call was running on the issuing goroutine (e.g. a
+//	                                    background retry after Unlock returned); every
+//	                                    Delete of a lock key is attributed to the call
+//	                                    running on its goroutine (c18KV) and tagged so that
+//	                                    the server side knows which issue removed the key
+//	  C18.two-holders-unlock-issued-several-deletes  ... was one of several DeleteRange
+//	                                    requests of ONE Unlock call (retries inside Unlock)
+//	                                    (both are NOT the known finding, which is a single
+//	                                    DeleteRange issued inside the call and applied late)
 //	  C18.two-holders-holder-key-gone   a holder's key is missing for another reason
 //	  C18.two-holders                   anything else
 //	  C18.lock-never-returns        a Lock/Unlock/request did not return within the bound
@@ -134,6 +145,7 @@ import (
 	"net"
 	"net/http/httptest"
 	"os"
+	"runtime"
 	"sort"
 	"strconv"
 	"strings"
@@ -148,6 +160,7 @@ import (
 	"google.golang.org/grpc"
 	"google.golang.org/grpc/backoff"
 	"google.golang.org/grpc/codes"
+	"google.golang.org/grpc/metadata"
 	"google.golang.org/grpc/status"
 	yaml "gopkg.in/yaml.v2"
 
@@ -603,7 +616,13 @@ type c18Env struct {
 	holders []c18Holder
 	mxLog   []string
 	lockSeq int
-	tick    int // counts entries and Unlock returns
+	// attribution of lock-key deletes (see c18KV)
+	calls     map[int64]*c18Call // goroutine id -> Lock/Unlock call running on it
+	callSeq   int
+	delSeq    int
+	delIssues map[int]*c18DelIssue
+	delByRev  map[int64]*c18DelIssue // store revision in which the issue removed its key
+	tick      int                    // counts entries and Unlock returns
 
 	acquired   int
 	contended  int
@@ -701,6 +720,9 @@ func (e *c18Env) unaryHook(ctx context.Context, ph zzsimetcd.Phase, method strin
 		}
 		return nil
 	}
+	if method == "DeleteRange" {
+		e.noteApplied(ctx)
+	}
 	if !e.armed || method == "LeaseKeepAlive" || r.Aborted() {
 		return nil
 	}
@@ -765,6 +787,7 @@ func (e *c18Env) newMember(idx int, name string) (*c18Member, error) {
 	}
 	cli.Lease = c18Lease{cli.Lease}
 	m := &c18Member{idx: idx, name: name, cli: cli}
+	cli.KV = c18KV{KV: cli.KV, e: e, m: m}
 	m.mem = cluster.VerifC18NewMember(name, cli, time.Hour)
 	if err := m.mem.InitLease(); err != nil {
 		return m, fmt.Errorf("initLease: %v", err)
@@ -773,6 +796,145 @@ func (e *c18Env) newMember(idx int, name string) (*c18Member, error) {
 	m.cls = m.mem.Cluster()
 	m.leaseHex = fmt.Sprintf("%x", m.mem.Lease())
 	return m, nil
+}
+
+// ---- who issued the DeleteRange that removed a lock key ------------------------------------
+//
+// The known finding C18.two-holders-after-late-delete is about ONE DeleteRange
+// that a Lock/Unlock call of the member issued, gave up on, and that etcd applies
+// after the call returned. To keep other causes apart, every Delete of a lock key
+// that goes through a member's client is attributed to the Lock/Unlock call (of
+// the harness-observed mutex) that is running ON THE ISSUING GOROUTINE, if any,
+// and tagged (gRPC metadata) so that the server side can tell which issue removed
+// the key in which store revision.
+
+type c18Call struct {
+	serial int
+	m      *c18Member
+	unlock bool
+	dels   int // Deletes of a lock key issued during the call, on its goroutine
+}
+
+type c18DelIssue struct {
+	id   int
+	m    *c18Member
+	key  string
+	call *c18Call // nil: issued outside every Lock/Unlock call
+	at   time.Duration
+}
+
+type c18KV struct {
+	clientv3.KV
+	e *c18Env
+	m *c18Member
+}
+
+const c18DelTag = "c18-del-issue"
+
+func (k c18KV) Delete(ctx context.Context, key string, opts ...clientv3.OpOption) (*clientv3.DeleteResponse, error) {
+	e := k.e
+	if e.prefix != "" && strings.HasPrefix(key, e.prefix) {
+		e.delSeq++
+		is := &c18DelIssue{id: e.delSeq, m: k.m, key: key, call: e.calls[c18Goid()], at: e.r.Now()}
+		if is.call != nil {
+			is.call.dels++
+		}
+		if e.delIssues == nil {
+			e.delIssues = map[int]*c18DelIssue{}
+		}
+		e.delIssues[is.id] = is
+		ctx = metadata.AppendToOutgoingContext(ctx, c18DelTag, strconv.Itoa(is.id))
+	}
+	return k.KV.Delete(ctx, key, opts...)
+}
+
+// c18Goid: the id of the running goroutine (only used to tie a Delete to the
+// Lock/Unlock call that is running on the same goroutine).
+func c18Goid() int64 {
+	var buf [64]byte
+	n := runtime.Stack(buf[:], false)
+	f := strings.Fields(string(buf[:n]))
+	if len(f) < 2 {
+		return -1
+	}
+	id, err := strconv.ParseInt(f[1], 10, 64)
+	if err != nil {
+		return -1
+	}
+	return id
+}
+
+func (e *c18Env) beginCall(m *c18Member, unlock bool) (int64, *c18Call) {
+	e.callSeq++
+	c := &c18Call{serial: e.callSeq, m: m, unlock: unlock}
+	if e.calls == nil {
+		e.calls = map[int64]*c18Call{}
+	}
+	g := c18Goid()
+	e.calls[g] = c
+	return g, c
+}
+
+func (e *c18Env) endCall(g int64) { delete(e.calls, g) }
+
+// noteApplied (server side, After phase of a DeleteRange): the tagged issue has
+// been applied; when it removed the key, remember in which revision.
+func (e *c18Env) noteApplied(ctx context.Context) {
+	md, ok := metadata.FromIncomingContext(ctx)
+	if !ok {
+		return
+	}
+	for _, v := range md.Get(c18DelTag) {
+		id, err := strconv.Atoi(v)
+		if err != nil {
+			continue
+		}
+		is := e.delIssues[id]
+		if is == nil {
+			continue
+		}
+		rev := e.store.Rev()
+		hist := e.store.History()
+		for i := len(hist) - 1; i >= 0 && hist[i].Rev >= rev; i-- {
+			if hist[i].Rev != rev || !hist[i].At.Equal(time.Now()) {
+				// not written by this request (which is applied and reported in one
+				// instant of virtual time): the request removed nothing
+				continue
+			}
+			for _, ev := range hist[i].Events {
+				if ev.Type != 0 && string(ev.Kv.Key) == is.key {
+					if e.delByRev == nil {
+						e.delByRev = map[int64]*c18DelIssue{}
+					}
+					if e.delByRev[rev] == nil {
+						e.delByRev[rev] = is
+					}
+				}
+			}
+		}
+	}
+}
+
+// delOrigin classifies the delete that removed m's lock key during its present
+// tenure: "" none / unknown issuer, "inside" issued by a Lock/Unlock call of a
+// member's goroutine that issued nothing else, "several" the Unlock call issued
+// more than one Delete, "outside" issued outside every Lock/Unlock call.
+func (e *c18Env) delOrigin(m *c18Member) (string, string) {
+	_, rev := e.lateDeleteRev(m)
+	if rev == 0 {
+		return "", ""
+	}
+	is := e.delByRev[rev]
+	if is == nil {
+		return "", ""
+	}
+	switch {
+	case is.call == nil:
+		return "outside", fmt.Sprintf("the DeleteRange applied in store revision %d was issued by %s at %v outside every Lock/Unlock call (no such call was running on the issuing goroutine)\n", rev, is.m.name, is.at)
+	case is.call.unlock && is.call.dels > 1:
+		return "several", fmt.Sprintf("the DeleteRange applied in store revision %d was issued by %s at %v by an Unlock call that issued %d DeleteRange requests\n", rev, is.m.name, is.at, is.call.dels)
+	}
+	return "inside", ""
 }
 
 // c18Known (development aid, env C18_KNOWN=class,class): the listed violation
@@ -857,7 +1019,9 @@ func (o *c18ObsMutex) Unlock() error {
 func (o *c18ObsMutex) LockAs(id string) error {
 	e := o.e
 	waited := len(e.holders) > 0
+	g, _ := e.beginCall(o.m, false)
 	err := o.inner.Lock()
+	e.endCall(g)
 	// no gate between the return of Lock and the bookkeeping
 	prevRev := o.m.lastOpRev
 	o.m.lastOpRev = e.store.Rev()
@@ -884,7 +1048,9 @@ func (o *c18ObsMutex) UnlockAs(id string) error {
 	e.leave(id)
 	o.m.unlocking++
 	o.m.unlockVal = o.val
+	g, _ := e.beginCall(o.m, true)
 	err := o.inner.Unlock()
+	e.endCall(g)
 	o.m.unlocking--
 	e.tick++
 	o.m.unlockTick = e.tick
@@ -948,6 +1114,11 @@ func (e *c18Env) describe() string {
 // lateDelete reports a deletion of m's lock key that was applied after m's
 // previous Lock/Unlock call had returned (m has not called Unlock since).
 func (e *c18Env) lateDelete(m *c18Member) string {
+	s, _ := e.lateDeleteRev(m)
+	return s
+}
+
+func (e *c18Env) lateDeleteRev(m *c18Member) (string, int64) {
 	key := e.prefix + m.leaseHex
 	for _, rec := range e.store.History() {
 		if rec.Rev <= m.tenureRev {
@@ -955,11 +1126,11 @@ func (e *c18Env) lateDelete(m *c18Member) string {
 		}
 		for _, ev := range rec.Events {
 			if ev.Type != 0 && string(ev.Kv.Key) == key {
-				return fmt.Sprintf("the lock key %s of %s was deleted in store revision %d at %v, after the previous Lock/Unlock call of %s had returned (store revision %d)\n", key, m.name, rec.Rev, rec.At.Sub(e.t0), m.name, m.tenureRev)
+				return fmt.Sprintf("the lock key %s of %s was deleted in store revision %d at %v, after the previous Lock/Unlock call of %s had returned (store revision %d)\n", key, m.name, rec.Rev, rec.At.Sub(e.t0), m.name, m.tenureRev), rec.Rev
 			}
 		}
 	}
-	return ""
+	return "", 0
 }
 
 func (e *c18Env) enter(id string, m *c18Member, val int) {
@@ -969,6 +1140,8 @@ func (e *c18Env) enter(id string, m *c18Member, val int) {
 		e.twoHolders = true
 		h := e.holders[0]
 		class, extra := "C18.two-holders", ""
+		originH, whyH := e.delOrigin(h.m)
+		originM, whyM := e.delOrigin(m)
 		late := (e.lateDelete(h.m) != "" && h.m.failedLock+h.m.failedUnlock > 0) || (e.lateDelete(m) != "" && m.failedLock+m.failedUnlock > 0)
 		switch {
 		case h.m == m && h.val != val:
@@ -989,6 +1162,17 @@ func (e *c18Env) enter(id string, m *c18Member, val int) {
 		case h.m.unlocking > 0 || m.unlocking > 0:
 			// a goroutine got in while an Unlock of its own member is still running
 			class = "C18.two-holders-during-unlock"
+		case originH == "outside" || originM == "outside":
+			// NOT the known finding: the delete that removed the key under the holder
+			// was issued when no Lock/Unlock call of that member was running on the
+			// issuing goroutine (e.g. by a background retry after Unlock had returned)
+			class = "C18.two-holders-delete-issued-outside-unlock"
+			extra = e.lateDelete(h.m) + e.lateDelete(m) + whyH + whyM
+		case originH == "several" || originM == "several":
+			// NOT the known finding either: one Unlock call issued several deletes,
+			// an earlier one of them was applied after the call had returned
+			class = "C18.two-holders-unlock-issued-several-deletes"
+			extra = e.lateDelete(h.m) + e.lateDelete(m) + whyH + whyM
 		case late:
 			// the lock key of one of the two was deleted during its present tenure,
 			// i.e. after the member's previous Lock/Unlock call had returned: by a
